@@ -3,11 +3,12 @@
 # Applies a seeded change to /repo, runs the quick tier of the given checks, restores /repo.
 # Prints one line per check: "<id> rc=<exit> violations=<n> time=<s>".
 set -u
-patch="$1"; seed="$2"; shift 2
+patch="$(readlink -f "$1")"; seed="$2"; shift 2
 cd /repo
 if ! git diff --quiet; then echo "/repo has uncommitted changes" >&2; exit 2; fi
 git apply "$patch" || { echo "patch does not apply" >&2; exit 2; }
-trap 'cd /repo && git checkout -- . ' EXIT
+# undo with the reverse patch; never let git rewrite eqlog-eqlog/prebuilt/eqlog.rs (its committed blob is empty here)
+trap 'cd /repo && git apply -R "$patch"; [ -s /repo/eqlog-eqlog/prebuilt/eqlog.rs ] || cp -p /verif/.cache/prebuilt-eqlog.rs.bak /repo/eqlog-eqlog/prebuilt/eqlog.rs' EXIT
 cd /verif
 for c in "$@"; do
   s=$(date +%s)
